@@ -32,6 +32,9 @@ const (
 	tAlgNotAllowed     // protected header names an algorithm outside the allowed list
 	tTruncated         // compact form without the signature segment
 	tSuffixMismatch    // deactivate: signed suffix differs from the request's
+	tSigPadded         // signature segment with one extra trailing byte
+	tSigTruncated      // signature segment with its last byte removed
+	tSigBitFlip        // one byte of the signature changed
 	tCount
 )
 
@@ -241,6 +244,23 @@ func tamperSigned(tamper int, signedData, reveal *string, payload interface{}, c
 	case tTruncated:
 		parts := strings.Split(*signedData, ".")
 		*signedData = parts[0] + "." + parts[1]
+	case tSigPadded, tSigTruncated, tSigBitFlip:
+		parts := strings.Split(*signedData, ".")
+		sig, err := encoder.DecodeString(parts[2])
+		verifrt.Assume(err == nil && len(sig) == 64)
+		switch tamper {
+		case tSigPadded:
+			sig = append(append([]byte{}, sig...), verifrt.AnyU8("pad-byte"))
+		case tSigTruncated:
+			sig = sig[:len(sig)-1]
+		case tSigBitFlip:
+			d := verifrt.AnyU8("flip")
+			verifrt.Assume(d != 0)
+			mod := append([]byte{}, sig...)
+			mod[[]int{0, 31, 32, 63}[verifrt.Choose("flip-pos", 4)]] ^= d
+			sig = mod
+		}
+		*signedData = parts[0] + "." + parts[1] + "." + encoder.EncodeToString(sig)
 	}
 }
 
@@ -254,7 +274,7 @@ func expectRefusal(c *stepCase, hasDoc bool, p protocol.Protocol, t uint64) bool
 		return true // create only on an empty state, the others only on an existing one
 	}
 	switch c.tamper {
-	case tUnparsable, tWrongSigner, tPayloadChanged, tRevealMismatch, tExtraHeader, tAlgNotAllowed, tTruncated, tSuffixMismatch:
+	case tUnparsable, tWrongSigner, tPayloadChanged, tRevealMismatch, tExtraHeader, tAlgNotAllowed, tTruncated, tSuffixMismatch, tSigPadded, tSigTruncated, tSigBitFlip:
 		return true
 	}
 	switch c.typ {
@@ -375,7 +395,7 @@ func Harness_C01_Step() {
 // Harness_C02_Tamper: every tampering class of a signed operation.
 func Harness_C02_Tamper() {
 	applierStep([]operation.Type{operation.TypeUpdate, operation.TypeRecover, operation.TypeDeactivate},
-		[]int{tNone, tWrongSigner, tPayloadChanged, tRevealMismatch, tDeltaSubstituted, tExtraHeader, tAlgNotAllowed, tTruncated, tSuffixMismatch})
+		[]int{tNone, tWrongSigner, tPayloadChanged, tRevealMismatch, tDeltaSubstituted, tExtraHeader, tAlgNotAllowed, tTruncated, tSuffixMismatch, tSigPadded, tSigTruncated, tSigBitFlip})
 }
 
 // Harness_C09_ApplyWindow: out-of-window updates and recovers still advance their commitments but leave the
